@@ -47,6 +47,11 @@ def obligations(tier):
                     for u in range(3):
                         obs.append(Ob(f"roundtrip_{a}_{sel}{i}_uri{u}", "E1", "h_roundtrip", {"area": a, "fix": {sel: i, "uri": u}}, 1200, f"area {a} ({sel}={i}, uri={u}): bytes reproduced, parse fixpoint, leaf fidelity", weight=100))
                     continue
+                if a == "envelope_b":
+                    for pl in (0, 1):
+                        for wd in (0, 1):
+                            obs.append(Ob(f"roundtrip_{a}_{sel}{i}_len{pl}_dep{wd}", "E1", "h_roundtrip", {"area": a, "fix": {sel: i, "pa_len": pl, "with_dep": wd}}, 1200, f"area {a} ({sel}={i}, first payload {'empty' if pl else '3 bytes'}, {'with' if wd else 'without'} integrated dependency): bytes reproduced, parse fixpoint, leaf fidelity", weight=100))
+                    continue
                 if a == "encrypt":
                     # split further on two structure flags (the union of the four parts is the area): each part is run twice when the
                     # known finding F14 is hit (once to find it, once with its predicate assumed away)
@@ -179,7 +184,9 @@ def h_roundtrip(area, fix=None, exclude=()):
         for leaf in payload_leaves(d):
             # a payload that is itself a decodable envelope is (consistently) classified as a dependency by parse; a fully symbolic
             # head byte forks the classification decoder over every CBOR type: one representative non-envelope head
-            chx.assume(len(leaf.prov) == 0 or leaf.prov[0] == 0x01)
+            # ... plus the head of tag 107 in front of something that is not an envelope (d8 6b 00: tag 107 around the integer 0)
+            p = leaf.prov
+            chx.assume(len(p) == 0 or p[0] == 0x01 or (len(p) >= 2 and p[0] == 0xD8 and p[1] == 0x6B and (len(p) == 2 or p[2] == 0x00)))
         for fid, leaf in ambiguous_bytes(area, d):
             if fid in exclude:
                 # an empty-bstr head never decodes as the integer / null alternative (one representative head byte: a fully
